@@ -120,6 +120,16 @@ func init() {
 						Repr: func(i int64) string { return fmt.Sprintf("%s quote state, quote %q, string %q", state, string(q), stringByIndex(al, i)) }})
 				}
 			}
+			for _, state := range c14States {
+				for _, q := range c14Quotes {
+					state, q := state, q
+					al := c14Alphabet(q)
+					npat := countStrings(len(al), 2) - 1
+					sp = append(sp, fw.Space{Name: fmt.Sprintf("pumped-%s-%U", state, q), N: npat * int64(len(pumpCountsSmall)),
+						Run:  func(c *fw.Ctx, i int64) { c14Run(c, state, q, pumped(stringByIndex(al, 1+i%npat), pumpCountsSmall[i/npat])) },
+						Repr: func(i int64) string { return fmt.Sprintf("%s quote state, quote %q, string %q x %d", state, string(q), stringByIndex(al, 1+i%npat), pumpCountsSmall[i/npat]) }})
+				}
+			}
 			hl := 3
 			for _, state := range c14States {
 				state := state
